@@ -107,6 +107,32 @@ CLAIMED["C11"] = (
     "custom AST dataflow: dependency cones, must-pass-through events, must-facts with kill-on-store (typestate) (static analysis)",
     "DESIGN.md section 5, C11",
 )
+CLAIMED["C13"] = (
+    "Claimed for the all-cores-execute-every-barrier clause and the structural clauses of barrier insertion: the "
+    "may-return-True type sets of dispatch_to_dm/compute contain only copy / linalg.generic / streaming-region kinds "
+    "(never the barrier, calls or terminators) and the dispatcher wraps only ops for which the rule held; the two "
+    "dependency directions of InsertSyncBarrier are alpha-equivalent with the right polarity and an unconditional loop "
+    "back-edge clause; found/inserted barriers reset the pending list, insertion is before the pending op; no rewrite "
+    "erases a ClusterSyncOp and its only lowering is the hardware-barrier call; in all 16 flag valuations of the pipeline "
+    "the last InsertSyncBarrier is followed by DispatchRegions with no op-moving pass in between and SNAXToFunc later. "
+    "NOT decided: that every execution path between two dependent ops of a given program contains a barrier (needs "
+    "per-program exploration); the nested-loop back-edge gap is a listed known finding (F-23).",
+    WALKER_NOTE + " Pass classes are identified by name; the list of op-moving passes is frozen in rules/c13.py.",
+    "isinstance type-set analysis, sibling alpha-equivalence, who-may-erase scan, abstract execution of the pipeline builder over all flag valuations (static analysis)",
+    "DESIGN.md section 5, C13",
+)
+CLAIMED["C14"] = (
+    "Static rules on DispatchRegions: both guards compare one and the same snax_cluster_core_idx call by `eq` with "
+    "nb_cores-1 (dm rule) resp. 0 (compute rule), pinned to range(nb_cores); ops are collected only under the rule, "
+    "groups need a common parent, are moved in order into one scf.if placed at the first op, and the list is reset only "
+    "after the move (must-pass-through); terminators are never dispatchable so every group is flushed; the dispatcher "
+    "is evaluated eagerly for every block of every function with a body; no concrete op kind is in both type sets; "
+    "dispatching precedes all lowerings of dispatchable ops in every pipeline. Decides these clauses for every "
+    "execution of the pass code, not per-core traces of a particular program.",
+    WALKER_NOTE,
+    "custom AST dataflow: dependency templates, must-pass-through events, lazy-evaluation (short-circuit) detection, pipeline typestate (static analysis)",
+    "DESIGN.md section 5, C14",
+)
 NOT_APPLICABLE = {
     "C02": "address-stream equality is integer arithmetic over runtime strides/bounds; no structural necessary condition carries weight (DESIGN.md section 5, C02)",
 }
